@@ -81,6 +81,17 @@ func (e *Env) asOld() *Env {
 
 func (x *Exec) compileBool(env *Env, e SExpr, cl *Clause) *Term {
 	env.clause = cl
+	defer func() {
+		if r := recover(); r != nil {
+			if _, ok := r.(specError); ok {
+				panic(r)
+			}
+			if _, ok := r.(unsupported); ok {
+				panic(r)
+			}
+			panic(specError{fmt.Sprintf("%s:%d: internal error compiling %q: %v", cl.File, cl.Line, cl.Text, r)})
+		}
+	}()
 	v := x.compile(env, e)
 	tv, ok := v.(TV)
 	if !ok || tv.T.Sort != SBool {
@@ -120,6 +131,10 @@ func (e *Env) resolveType(name string) types.Type {
 		return tString
 	case "float64":
 		return tFloat
+	case "any":
+		return types.Universe.Lookup("any").Type()
+	case "error":
+		return types.Universe.Lookup("error").Type()
 	case "rune", "int32":
 		return types.Typ[types.Int32]
 	case "int64":
@@ -785,6 +800,66 @@ func (x *Exec) compileCall(env *Env, e *SCall) Value {
 		x.declareFun("brune", "(declare-fun brune ((Array Int Int) Int Int) Int)")
 		x.declareFun("brunelen", "(declare-fun brunelen ((Array Int Int) Int Int) Int)")
 		return TV{App(fn, SInt, Select(h, Sel("s-ref", a.T)), Add(Sel("s-off", a.T), i.T), Sub(Sel("s-len", a.T), i.T)), ty}
+	case "mkstruct":
+		// mkstruct(T, v1, v2, …): the struct value T{v1, v2, …}
+		id, ok := e.Args[0].(*SIdent)
+		if !ok {
+			env.fail("mkstruct needs a type name first")
+		}
+		ty := env.resolveType(id.Name)
+		stt, ok := ty.Underlying().(*types.Struct)
+		if !ok || stt.NumFields() != len(e.Args)-1 {
+			env.fail("mkstruct(%s, …): need one value per field", id.Name)
+		}
+		sort := x.ti.SortOf(ty)
+		dt := datatypes[sort]
+		var fs []*Term
+		for i := 0; i < stt.NumFields(); i++ {
+			a := argTV(i + 1)
+			if a.T.Sort != dt.sorts[i] {
+				if v, ok := a.T.IntVal(); ok && dt.sorts[i] == SF64 {
+					f, _ := new(big.Float).SetInt(v).Float64()
+					a.T = fpLit(f)
+				} else {
+					env.fail("mkstruct(%s): field %d has sort %s, want %s", id.Name, i, a.T.Sort, dt.sorts[i])
+				}
+			}
+			fs = append(fs, a.T)
+		}
+		return TV{Ctor(dt.ctor, sort, fs...), ty}
+	case "addr":
+		// addr(v): the address of package-level variable v
+		id, ok := e.Args[0].(*SIdent)
+		if !ok {
+			env.fail("addr() needs the name of a package-level variable")
+		}
+		pkg := env.pkg
+		if pkg == nil && x.fn != nil && x.fn.Pkg != nil {
+			pkg = x.fn.Pkg.Pkg
+		}
+		for _, p := range x.v.prog.AllPackages() {
+			if p.Pkg == pkg {
+				if g, ok := p.Members[id.Name].(*ssa.Global); ok {
+					return TV{x.globalPtr(g), g.Type()}
+				}
+			}
+		}
+		env.fail("no package-level variable %s", id.Name)
+	case "syncmap":
+		// the abstract content of a *sync.Map, as a map[any]any addressed by the pointer's reference
+		a := argTV(0)
+		if a.T.Sort != SPtr {
+			env.fail("syncmap needs a *sync.Map")
+		}
+		anyT := types.Universe.Lookup("any").Type()
+		return TV{Sel("p-ref", a.T), types.NewMap(anyT, anyT)}
+	case "iface":
+		// iface(v): v boxed in an interface value
+		a := argTV(0)
+		if a.T.Sort == SIface {
+			return a
+		}
+		return x.makeInterface(env.st, a, a.Ty, types.Universe.Lookup("any").Type())
 	case "typeis", "as":
 		// typeis(x, T): the dynamic type of interface value x is T;  as(x, T): the T it holds
 		a := argTV(0)
@@ -792,14 +867,25 @@ func (x *Exec) compileCall(env *Env, e *SCall) Value {
 			env.fail("%s needs an interface value", e.Fun)
 		}
 		var tname string
-		switch t := e.Args[1].(type) {
-		case *SIdent:
-			tname = t.Name
-		case *SUnary:
-			if id, ok := t.X.(*SIdent); ok && t.Op == "*" {
-				tname = "*" + id.Name
+		var typeName func(t SExpr) string
+		typeName = func(t SExpr) string {
+			switch t := t.(type) {
+			case *SIdent:
+				return t.Name
+			case *SField:
+				if id, ok := t.X.(*SIdent); ok {
+					return id.Name + "." + t.Name
+				}
+			case *SUnary:
+				if t.Op == "*" {
+					if n := typeName(t.X); n != "" {
+						return "*" + n
+					}
+				}
 			}
+			return ""
 		}
+		tname = typeName(e.Args[1])
 		if tname == "" {
 			env.fail("%s: second argument must be a type", e.Fun)
 		}
